@@ -165,9 +165,8 @@ def wmViolations : Option Int → List (Elem Val) → List (Int × Int × Bool)
 
 def ceilDiv (a b : Int) : Int := (a + b - 1) / b
 
-/-- a failure of the oracle: `known` = the defect pattern that explains it, if any -/
+/-- a failure of the oracle -/
 structure Failure where
-  known : Option String
   msg : String
 
 structure OracleIn where
@@ -176,8 +175,6 @@ structure OracleIn where
   es : List (Elem Val)
   rs : List ImplRes
   stream : List (Elem Val)
-  /-- model state of the element's key at its arrival: start of the oldest open slot -/
-  frontAt : InData → Option Int
 
 def oracle (o : OracleIn) : List Failure :=
   let ds := inData o.es
@@ -185,35 +182,32 @@ def oracle (o : OracleIn) : List Failure :=
   let slide := o.cfg.slide
   -- (a) one key, one interval, own iteration, arrived before the result
   let a : List Failure := o.rs.flatMap fun r =>
-    (if r.items.isEmpty then [⟨none, s!"empty result at op {r.idx}"⟩] else []) ++
+    (if r.items.isEmpty then [⟨s!"empty result at op {r.idx}"⟩] else []) ++
     (match r.stamp with
-     | none => [⟨none, s!"result without timestamp at op {r.idx}"⟩]
+     | none => [⟨s!"result without timestamp at op {r.idx}"⟩]
      | some stop => r.items.flatMap fun v =>
        match ds.find? (fun d => d.v == v) with
-       | none => [⟨none, s!"result at op {r.idx} contains {v} which is not an input element"⟩]
+       | none => [⟨s!"result at op {r.idx} contains {v} which is not an input element"⟩]
        | some d =>
          (if d.pos < r.idx ∧ d.iter == iterOf o.es r.idx then [] else
-            [⟨none, s!"result at op {r.idx} contains {v} of another iteration / a later element"⟩]) ++
+            [⟨s!"result at op {r.idx} contains {v} of another iteration / a later element"⟩]) ++
          (if stop - size ≤ d.t ∧ d.t < stop then [] else
-            [⟨none, s!"one-interval: result stamped {stop} (window [{stop - size},{stop})) contains {v} with ts {d.t}"⟩]) ++
+            [⟨s!"one-interval: result stamped {stop} (window [{stop - size},{stop})) contains {v} with ts {d.t}"⟩]) ++
          (match r.key with
-          | some k => if keyVal v == k then [] else [⟨none, s!"one-key: result of key {k} contains {v}"⟩]
+          | some k => if keyVal v == k then [] else [⟨s!"one-key: result of key {k} contains {v}"⟩]
           | none => []))
   -- no element twice in one result
   let dup : List Failure := o.rs.flatMap fun r =>
     if r.items.any (fun v => (r.items.filter (· == v)).length > 1) then
-      [⟨none, s!"no-dup: result at op {r.idx} contains an element twice: {Val.list r.items}"⟩] else []
+      [⟨s!"no-dup: result at op {r.idx} contains an element twice: {Val.list r.items}"⟩] else []
   -- (b) tumbling: exactly one result per non-late element; sliding: between 1 and ceil(size/slide)
   let maxN : Int := if slide ≤ size then ceilDiv size slide else 1
   let minN : Int := if slide ≤ size then 1 else 0
   let b : List Failure := ds.flatMap fun d =>
     let n : Int := ((o.rs.map fun r => (r.items.filter (· == d.v)).length).foldl (· + ·) 0 : Nat)
-    (if n > maxN then [⟨none, s!"cover: element {d.v} (ts {d.t}) is in {n} results, more than ceil(size/slide)={maxN}"⟩] else []) ++
+    (if n > maxN then [⟨s!"cover: element {d.v} (ts {d.t}) is in {n} results, more than ceil(size/slide)={maxN}"⟩] else []) ++
     (if !d.late ∧ n < minN then
-      let f2 := match o.frontAt d with | some f => decide (d.t < f) | none => false
-      [⟨if f2 then some "F2" else none,
-        s!"element {d.v} (ts {d.t}, not late: last watermark {d.lw}) is in no result" ++
-        (match o.frontAt d with | some f => s!"; oldest open slot at its arrival starts at {f}" | none => "; no open slot at its arrival")⟩]
+      [⟨s!"element {d.v} (ts {d.t}, not late: last watermark {d.lw}) is in no result"⟩]
      else [])
   -- (c) watermark safety of the output (given a watermark-safe input), fire bounds
   let inSafe := if o.opMode then wmSafeOk o.es else wmSafeNoReset none o.es
@@ -221,9 +215,8 @@ def oracle (o : OracleIn) : List Failure :=
     if !inSafe then [] else
     let vs := wmViolations none o.stream
     (vs.map fun (t, w, isRes) =>
-      ⟨if isRes ∧ t == w then some "F3" else none,
-       if isRes then s!"wmsafe: result stamped {t} emitted after Watermark({w})" else s!"wmsafe: Watermark({t}) after Watermark({w})"⟩) ++
-    (if vs.isEmpty ∧ !wmSafeOk o.stream then [⟨none, "wmsafe: recogniser rejects the output stream"⟩] else [])
+      ⟨if isRes then s!"wmsafe: result stamped {t} emitted after Watermark({w})" else s!"wmsafe: Watermark({t}) after Watermark({w})"⟩) ++
+    (if vs.isEmpty ∧ !wmSafeOk o.stream then [⟨"wmsafe: recogniser rejects the output stream"⟩] else [])
   let fire : List Failure := o.rs.flatMap fun r =>
     match r.stamp with
     | none => []
@@ -239,24 +232,16 @@ def oracle (o : OracleIn) : List Failure :=
         match e with
         | .wm w => decide (firstPos < j ∧ j < r.idx ∧ stop < w) && iterOf o.es j == it
         | _ => false
-      (if okTrig then [] else [⟨none, s!"fire-bounds: result stamped {stop} emitted at op {r.idx} ({elemToStr trig}), before a watermark reached its end"⟩]) ++
-      (if early then [⟨none, s!"fire-bounds: result stamped {stop} emitted at op {r.idx}, later than the first watermark beyond its end"⟩] else [])
+      (if okTrig then [] else [⟨s!"fire-bounds: result stamped {stop} emitted at op {r.idx} ({elemToStr trig}), before a watermark reached its end"⟩]) ++
+      (if early then [⟨s!"fire-bounds: result stamped {stop} emitted at op {r.idx}, later than the first watermark beyond its end"⟩] else [])
   a ++ dup ++ b ++ c ++ fire
 
-/-- all failures explained by one known defect pattern → `known:<signature>`, otherwise plain -/
-def verdictOf (fs : List Failure) : Option String × List String :=
-  if fs.isEmpty then (none, []) else
-  let unknown := fs.filter (·.known.isNone)
-  let hasF2 := fs.any (·.known == some "F2")
-  let hasF3 := fs.any (·.known == some "F3")
-  let tags := (if hasF2 then ["F2"] else []) ++ (if hasF3 then ["F3"] else [])
-  match unknown with
-  | u :: _ => (some s!"{u.msg} ({fs.length} failures)", tags)
-  | [] =>
-    let first := (fs.headD ⟨none, ""⟩).msg
-    if hasF2 ∧ hasF3 then (some s!"known:F2+F3-mixed {first} ({fs.length} failures)", tags)
-    else if hasF2 then (some s!"known:F2-element-before-oldest-slot {first} ({fs.length} failures)", tags)
-    else (some s!"known:F3-result-after-watermark-equal-end {first} ({fs.length} failures)", tags)
+/-- every failure is a plain `FAIL` (the former F2/F3 patterns were fixed in /repo and are no
+    longer classified as known findings) -/
+def verdictOf (fs : List Failure) : Option String :=
+  match fs with
+  | [] => none
+  | f :: _ => some s!"{f.msg} ({fs.length} failures)"
 
 /-- a panic is acceptable only on a malformed input -/
 def malformed (opMode : Bool) (es : List (Elem Val)) : Bool :=
@@ -277,21 +262,15 @@ def handle (c : Case) : Verdict :=
       let es0 := c.ops.filterMap fun w => match w with | ["e", e] => parseElem e | _ => none
       let es := if opMode then cutAtTerm es0 else es0
       -- model
-      let (out, panic, frontAt) : List String × Option String × (InData → Option Int) :=
+      let (out, panic) : List String × Option String :=
         if opMode then
           let m := mgr (α := Val) cfg
           let kes := keyed es
           let units := WindowOp.runUnits m WindowOp.State.init kes
           let fin := WindowOp.stateAfter m WindowOp.State.init kes
-          (canon (units.flatten.map fmtOpElem), fin.panic,
-           fun d =>
-             let st := WindowOp.stateAfter m WindowOp.State.init (kes.take d.pos)
-             match st.windows.find? (fun p => p.1 == keyOf d.v) with
-             | some (_, s) => s.ws.head?.map (·.start)
-             | none => none)
+          (canon (units.flatten.map fmtOpElem), fin.panic)
         else
-          ((run cfg es).map fun p => fmtRes p.1 p.2, firstPanic cfg State.init es,
-           fun d => (stateAfter cfg State.init (es.take d.pos)).ws.head?.map (·.start))
+          ((run cfg es).map fun p => fmtRes p.1 p.2, firstPanic cfg State.init es)
       let out := match panic with | some cls => [s!"panic:{cls}"] | none => out
       let baseTags := [mode, slideClass cfg]
       -- implementation
@@ -301,26 +280,32 @@ def handle (c : Case) : Verdict :=
           let ok := malformed opMode es
           { out, oracle := if ok then none else some s!"{l} on a well-formed input", nontrivial := false,
             tags := baseTags ++ ["panic"] }
-        else handleOut cfg opMode es out frontAt baseTags c.implOut
-      | _ => handleOut cfg opMode es out frontAt baseTags c.implOut
+        else handleOut cfg opMode es out baseTags c.implOut
+      | _ => handleOut cfg opMode es out baseTags c.implOut
     | _, _ => { out := [], oracle := some "bad header", nontrivial := false }
   | _ => { out := [], oracle := some "bad header", nontrivial := false }
 where
   handleOut (cfg : Cfg) (opMode : Bool) (es : List (Elem Val)) (out : List String)
-      (frontAt : InData → Option Int) (baseTags : List String) (implOut : List String) : Verdict :=
+      (baseTags : List String) (implOut : List String) : Verdict :=
     let parsed : Option (List ImplRes × List (Elem Val)) :=
       if opMode then parseOpLines es implOut
       else (implOut.mapM parseMgrLine).map fun rs => (rs, mgrStream es rs)
     match parsed with
     | none => { out, oracle := some "unparsable implementation output", nontrivial := false, tags := baseTags }
     | some (rs, stream) =>
-      let fs := oracle ⟨opMode, cfg, es, rs, stream, frontAt⟩
-      let (orc, ktags) := verdictOf fs
+      let fs := oracle ⟨opMode, cfg, es, rs, stream⟩
+      let orc := verdictOf fs
       let ds := inData es
       let inSafe := if opMode then wmSafeOk es else wmSafeNoReset none es
       { out, oracle := orc, nontrivial := rs.length ≥ 1 && ds.length ≥ 2,
-        tags := baseTags ++ ktags ++ [if inSafe then "in-wmsafe" else "in-not-wmsafe", s!"res{min rs.length 3}"] ++
+        tags := baseTags ++ [if inSafe then "in-wmsafe" else "in-not-wmsafe", s!"res{min rs.length 3}"] ++
           (if ds.any (·.late) then ["late"] else []) ++
+          -- boundary classes of the two fixed defects: an arrival earlier than an earlier one of
+          -- its key (backward allocation), a result fired by a watermark equal to its end
+          (if ds.any (fun d => ds.any fun d' => decide (d'.pos < d.pos ∧ d.t < d'.t) && d'.iter == d.iter &&
+              keyOf d'.v == keyOf d.v) then ["out-of-order"] else []) ++
+          (if rs.any (fun r => match es.getD r.idx .flushBatch with | .wm w => r.stamp == some w | _ => false)
+            then ["wm=end"] else []) ++
           (if (es.filter Elem.isFar).length > 1 then ["multi-iter"] else []) }
 
 end Noir.Driver.Etwin
